@@ -57,6 +57,35 @@ def _one(args: Tuple[str, str, str, str, str]) -> Tuple[str, str, str, int, str]
     return kind, name, prop, rc, " | ".join(lines[:4])
 
 
+_ANCHORS = None
+
+
+def _props_touching(patch_path: str):
+    global _ANCHORS
+    if _ANCHORS is None:
+        # the modules each check consults, as recorded by its last evidence file (units), plus the property's anchor files
+        _ANCHORS = {}
+        for line in open(os.path.join(VERIF, "properties.jsonl")):
+            line = line.strip()
+            if not line:
+                continue
+            d = json.loads(line)
+            files = {f.split(" ")[0].strip() for f in d.get("anchors", {}).get("files", [])}
+            ev = os.path.join(VERIF, "evidence", d["id"] + ".json")
+            if os.path.exists(ev):
+                try:
+                    files |= set(json.load(open(ev)).get("coverage", {}).get("units", {}))
+                except (ValueError, AttributeError):
+                    pass
+            _ANCHORS[d["id"]] = files
+    touched = {l[6:].strip() for l in open(patch_path) if l.startswith("+++ b/")}
+    out = set()
+    for pid, files in _ANCHORS.items():
+        if any(t == f or (f.endswith("/") and t.startswith(f)) or (f.endswith("*") and t.startswith(f.rstrip("*"))) for t in touched for f in files):
+            out.add(pid)
+    return out
+
+
 def collect(only: List[str]) -> List[Tuple[str, str, str, str]]:
     items = []
     for kind, fname in (("regress", "reintroduce.diff"), ("seeded", "patch.diff"), ("benign", "patch.diff")):
@@ -71,6 +100,9 @@ def collect(only: List[str]) -> List[Tuple[str, str, str, str]]:
             meta = json.load(open(mp))
             props = meta.get("property")
             props = props if isinstance(props, list) else [props]
+            if kind == "benign":
+                # a behaviour-preserving patch must leave EVERY check silent whose anchor modules it touches
+                props = sorted(set(props) | _props_touching(p))
             for prop in props:
                 if only and prop not in only and name not in only and kind not in only:
                     continue
